@@ -214,7 +214,10 @@ def windowFields (Γ : CEnv) (x : Sym) (acc : List WAcc) :
   let ty ← bufTy Γ x
   let los ← mapM' (fun w => do let c ← liftIdx Γ (waccLo w); let s ← simp c; pure (compAst s)) acc
   let strs ← mapM' (fun c => do let s ← simp c; pure (compAst s)) (getStrides x ty)
-  if strs.length = 0 ∨ strs.length ≠ acc.length then throw "raise:AssertionError:window_struct_fields"
+  -- `assert 0 < len(all_strides_s) == len(e.idx)` and, in `window_struct` (called through
+  -- `get_window_type`), `assert n_dims >= 1`: a window expression needs at least one interval
+  if strs.length = 0 ∨ strs.length ≠ acc.length ∨ ((acc.map waccIsIv).filter id).length = 0 then
+    throw "raise:AssertionError:window_struct_fields"
   else pure (isWinTy ty, los, strs, acc.map waccIsIv,
              acc.all (fun w => modNumOK Γ.renv (toIE Γ.typ (waccLo w))) && shapeOK Γ x)
 
